@@ -85,6 +85,17 @@ Theorem c29_rounded_tolerance_refuted :
   dev_of f p ref < abs_diff (umax_of p) (ref_unit p ref).
 Proof. exact pipeline_adjust_failed_witness. Qed.
 
+(* The adjustment function ALONE can return an inverted price (reference off the precision grid, deviation
+   below half a step, both sides clamped: max = floor, min = ceil); it is the rest of the pipeline
+   (SmallPrices::from_price) that rejects it — see c29_pipeline_rejects_inverted for the general statement.
+   Same inputs as the real replays in corpus/C29/witness.txt. *)
+Theorem c29_adjust_can_invert_pipeline_rejects :
+  adjust (10 ^ 15) ((99, 1), (102, 1)) None = Some (Some ((101, 1), (100, 1))) /\
+  pipeline true (Some (10 ^ 15)) ((99, 1), (102, 1)) None = Err 1 /\
+  adjust (10 ^ 15) ((9, 2), (12, 2)) (Some (1055, 0)) = Some (Some ((11, 2), (10, 2))) /\
+  pipeline true (Some (10 ^ 15)) ((9, 2), (12, 2)) (Some (1055, 0)) = Err 1.
+Proof. vm_compute. repeat split; reflexivity. Qed.
+
 (* non-vacuity *)
 Example c29_ex1 : adjust (10 ^ 18) ((9000, 8), (12000, 8)) (Some (10000, 8)) = Some (Some ((9900, 8), (10100, 8))).
 Proof. vm_compute. reflexivity. Qed.
